@@ -51,12 +51,18 @@ fn mk(d: &Dispatch) -> Span { let m = __CALLSITE.metadata(); Span::new_with(m, &
 fn c03_creation_goes_to_current_default_once() {
     let id = any_id(); let d = own(id);
     let m = __CALLSITE.metadata();
-    let which: u8 = nd(); kani::assume(which < 3);
-    let s = dispatch::with_default(&d, || match which {
+    let which: u8 = nd(); kani::assume(which < 6);
+    let f = foreign();
+    // the *_with constructors take the collector explicitly: they must use IT, whatever the current default is
+    let s = dispatch::with_default(if which < 3 { &d } else { &f }, || match which {
         0 => Span::new(m, &m.fields().value_set(&[])),
         1 => Span::new_root(m, &m.fields().value_set(&[])),
-        _ => Span::child_of(Some(span::Id::from_u64(5)), m, &m.fields().value_set(&[])),
+        2 => Span::child_of(Some(span::Id::from_u64(5)), m, &m.fields().value_set(&[])),
+        3 => Span::new_with(m, &m.fields().value_set(&[]), &d),
+        4 => Span::new_root_with(m, &m.fields().value_set(&[]), &d),
+        _ => Span::child_of_with(Some(span::Id::from_u64(5)), m, &m.fields().value_set(&[]), &d),
     });
+    assert!(total(1) == 0, "C03.create.with_constructors_never_touch_the_current_default");
     assert!(n(0, NEW) == 1 && total(0) == 1, "C03.create.exactly_one_new_span_on_the_current_default");
     assert!(s.id().map(|i| i.into_u64()) == Some(id) && !s.is_disabled(), "C03.create.handle_carries_the_collectors_id");
     core::mem::forget(s);
@@ -223,4 +229,28 @@ fn c03_instrumented_into_inner_drops_its_span_handle_exactly_once() {
         core::mem::forget(inner);
     });
     assert!(total(1) == 0, "C03.foreign_default_never_touched");
+}
+
+// or_current: an enabled span is returned as it is (no collector call); a disabled one is replaced by the current span,
+// i.e. exactly one clone on the CURRENT default's collector
+#[kani::proof]
+#[kani::unwind(12)]
+#[kani::stub(core::fmt::Formatter::pad, pad_stub)]
+fn c03_or_current_clones_only_when_disabled() {
+    let id = any_id(); let d = own(id);
+    let cur: u64 = nd();
+    let f = Dispatch::__verif_unregistered(Rec { i: 1, new_id: 99, cur, close_result: nd() });
+    let enabled: bool = nd();
+    let s = if enabled { mk(&d) } else { Span::none() };
+    let before0 = total(0);
+    let r = dispatch::with_default(&f, || s.or_current());
+    if enabled {
+        assert!(total(0) == before0 && total(1) == 0, "C03.or_current.enabled_span_is_returned_without_any_collector_call");
+        assert!(r.id().map(|i| i.into_u64()) == Some(id), "C03.or_current.enabled_span_keeps_its_identity");
+    } else {
+        assert!(total(0) == before0, "C03.or_current.disabled.own_collector_untouched");
+        assert!(n(1, CURRENT) == 1 && n(1, CLONE) == (cur != 0) as usize, "C03.or_current.disabled.one_lookup_and_one_clone_of_the_current_span_if_any");
+        assert!(r.id().map(|i| i.into_u64()) == if cur != 0 { Some(cur) } else { None }, "C03.or_current.disabled.result_is_the_current_span");
+    }
+    core::mem::forget(r);
 }
